@@ -328,6 +328,14 @@ def r07d(ctx):
     eff = paths.collect_effects(a, lp[1], lambda k: k[0] if len(k) == 1 else None)
     acc = [(c, e) for es in eff.values() for (c, sg_, t, e, ln) in es if sg_ == 1 and a.rooted_at(e, s)]
     pushes = [p for p in a.calls('alloc::vec::Vec::push') if p in lp[1] and flow.mentions(a.arg(p, 0), lambda z: z[0] == 'field' and z[2] == 'chunk_boundary_offsets')]
+    if not pushes:
+        # the offsets may be collected in a local list that is stored into the field afterwards
+        for (b_, si_, st_) in a.stores_to_field('chunk_boundary_offsets'):
+            v_ = a.flow.rvalue(st_['r'], 0)
+            rc_ = a.root_call(v_)
+            if rc_ is not None and sg(rc_[1]).split('::')[-1] in ('new', 'with_capacity') and b_ not in lp[1]:
+                pushes += [p for p in a.calls('alloc::vec::Vec::push') if p in lp[1] and a.root_call(a.arg(p, 0)) is not None and a.root_call(a.arg(p, 0))[3] == rc_[3]
+                           and b_ in a.cfg.reach_after([lp[0]])]
     ok = len(acc) == 1 and len(pushes) == 1 and a.arg(pushes[0], 1)[0] == 'local' and a.arg(pushes[0], 1)[2] == acc[0][0]
     ctx.check(ok, 'R07d', fn, 'boundary offsets', a.loc(pushes[0]) if pushes else '-', 'each iteration adds the chunk\'s serialised size to a running total and pushes that total as the boundary offset',
               'chunk_boundary_offsets is not the running sum of the serialised chunk sizes')
@@ -345,10 +353,13 @@ def r07d(ctx):
     rg = dict(sl[2][3]) if sl[0] == 'index' and sl[2][0] == 'agg' else {}
     st, en = rg.get('start'), rg.get('end')
     okr = sl[0] == 'index' and sl[1] == ('param', 3, 'data') and st is not None and st[0] == 'local' and en is not None
+    # the end of the slice is the boundary recorded for this chunk in the input list
+    okr = okr and flow.mentions(en, lambda z: z == ('param', 4, 'chunk_and_boundaries') or (z[0] == 'local' and z[2] in ('iter', 'boundary'))) or (okr and en[0] == 'local' and any(
+        flow.mentions(se, lambda z: z == ('param', 4, 'chunk_and_boundaries') or (z[0] == 'local' and z[2] == 'iter')) for (_, _, se) in a.flow.sources(en)))
     if okr:
         ds = [d for d in a.flow.defs.get(st[1], []) if d[0] == 'assign']
         vals = [a.flow.rvalue(d[3], 0) for d in ds]
-        okr = len(vals) == 2 and any(v == ('const', 0, 'u32') for v in vals) and any(flow.eqv(v, en) for v in vals if v[0] != 'const')
+        okr = len(vals) == 2 and any(v[:2] == ('const', 0) for v in vals) and any(flow.eqv(v, en) for v in vals if v[0] != 'const')
     ctx.check(okr, 'R07d', fn, 'slices', a.loc(s), 'chunk i is data[previous boundary .. boundary i] (consecutive, starting at 0)')
     # hashes and unpacked offsets come from the same input list
     for fld, comp in (('chunk_hashes', '0'), ('unpacked_chunk_offsets', '1')):
